@@ -1,7 +1,7 @@
 (* C15 non-vacuity: concrete inputs meeting the hypotheses of the theorems in
    Props.v, and concrete instances of the abstract codings / primitives that
    satisfy the section hypotheses (so the hypotheses are consistent). *)
-From CJ Require Import Common.Base Common.BaseProofs C15.Model C15.Proofs C15.ModelName C15.ProofsName C15.ModelObf C15.ProofsObf C15.ModelAny C15.ProofsAny C15.Run.
+From CJ Require Import Common.Base Common.BaseProofs C15.Model C15.Proofs C15.ModelName C15.ProofsName C15.ModelObf C15.ProofsObf C15.ModelAny C15.ProofsAny C15.ModelDns C15.ProofsDns C15.Run.
 From Coq Require Import Lia ZifyN ZifyNat ZifyBool.
 Ltac Zify.zify_post_hook ::= Z.div_mod_to_equations.
 
@@ -71,7 +71,7 @@ Proof. eexists. split; vm_compute; reflexivity. Qed.
 Example ex_xor : exists c, xor_obfuscate [10; 20; 30] [1; 2; 3] = Some c /\ xor_reveal c = Some [1; 2; 3].
 Proof. eexists. split; vm_compute; reflexivity. Qed.
 Example ex_xor_fresh : exists c1 c2, xor_obfuscate [10] [1] = Some c1 /\ xor_obfuscate [11] [1] = Some c2 /\ c1 <> c2.
-Proof. do 2 eexists. repeat split; try (vm_compute; reflexivity). discriminate. Qed.
+Proof. do 2 eexists. split; [vm_compute; reflexivity|]. split; [vm_compute; reflexivity|]. discriminate. Qed.
 
 (* stand-in primitives that satisfy every law in crypto_laws: the laws are jointly satisfiable,
    so the CTR/GCM theorems are not vacuous *)
@@ -113,10 +113,10 @@ Qed.
 Definition t_rand : obf_rand := {| or_cands := [[7; 1]; [9; 9; 9]]; or_byte := 200 |}.   (* first candidate has no representative *)
 Example ex_ctr : exists c, ctr_obfuscate t_sbm t_x t_sha t_ctr t_rand [1; 2; 3] (t_mask [5; 5]) = Some c /\
                            ctr_reveal t_r2p t_x t_sha t_ctr c [5; 5] = Some [1; 2; 3] /\ blen c = 35 /\ nth 31 c 0 = 192.
-Proof. eexists. repeat split; vm_compute; reflexivity. Qed.
+Proof. eexists. split; [vm_compute; reflexivity|]. split; [vm_compute; reflexivity|]. split; vm_compute; reflexivity. Qed.
 Example ex_gcm : exists c, gcm_obfuscate t_sbm t_x t_sha t_seal t_rand [] (t_mask [5; 5]) = Some c /\
                            gcm_reveal t_r2p t_x t_sha t_open c [5; 5] = Some [] /\ blen c = 48.
-Proof. eexists. repeat split; vm_compute; reflexivity. Qed.
+Proof. eexists. split; [vm_compute; reflexivity|]. split; vm_compute; reflexivity. Qed.
 Example ex_header_fresh :
   obf_header t_sbm t_rand <> obf_header t_sbm {| or_cands := [[9; 9; 9]]; or_byte := 100 |}.
 Proof. vm_compute. discriminate. Qed.
@@ -129,4 +129,29 @@ Example ex_anypb_nourl :
 Proof. vm_compute. reflexivity. Qed.
 Example ex_anypb_wrong :
   unmarshal_anypb_to N st_msg any_url_of st_unmarshal (Some (pack N st_msg fst any_url_of st_marshal (0, [2]))) 1 = Err EWrongType.
+Proof. vm_compute. reflexivity. Qed.
+
+(* ---- DNS messages: nested names a1, a2.a1, ... (the compression-chain case) ---- *)
+Fixpoint nested (k : nat) : name := match k with O => [] | S k' => [97; N.of_nat k] :: nested k' end.
+Definition chain_msg (k : nat) : message :=
+  {| m_id := 4660; m_flags := 256;
+     m_q := map (fun i => {| q_name := nested i; q_type := 16; q_class := 1 |}) (seq 1 k);
+     m_an := [{| rr_name := nested k; rr_type := 16; rr_class := 1; rr_ttl := 60; rr_data := [1; 104] |}];
+     m_ns := []; m_ar := [{| rr_name := []; rr_type := 41; rr_class := 4096; rr_ttl := 0; rr_data := [] |}] |}.
+Lemma chain14_names_ok : names_ok (chain_msg 14).
+Proof. unfold names_ok. repeat constructor. Qed.
+Example ex_chain14 : exists b, wire_message (chain_msg 14) = Ok b /\ read_message b = Ok (chain_msg 14) /\ blen b = 192.
+Proof. eexists. split; [vm_compute; reflexivity|]. split; vm_compute; reflexivity. Qed.
+(* the 12th name would need 11 pointers: its first label (and that of every later name) is written verbatim and
+   followed by a pointer to an entry of depth 9, so no chain exceeds the reader's budget of 10 *)
+Example ex_chain_depths :
+  map ce_depth (snd (match b_message (chain_msg 14) with Ok st => st | _ => ([], []) end)) =
+  [10; 10; 10; 10; 10; 10; 10; 10; 10; 10; 10; 10; 10; 10; 9; 8; 7; 6; 5; 4; 3; 2; 1; 0].
+Proof. vm_compute. reflexivity. Qed.
+(* a pointer is used: the answer's name costs two octets *)
+Example ex_compression_used :
+  exists b, wire_message (chain_msg 2) = Ok b /\ blen b = 12 + (4 + 4) + (3 + 2 + 4) + (2 + 10 + 2) + (1 + 10).
+Proof. eexists. split; vm_compute; reflexivity. Qed.
+Example ex_rdata_overflow :
+  wire_message {| m_id := 0; m_flags := 0; m_q := []; m_an := [{| rr_name := [[97]]; rr_type := 16; rr_class := 1; rr_ttl := 0; rr_data := lcg_bytes 1 65536 |}]; m_ns := []; m_ar := [] |} = Err EOverflow.
 Proof. vm_compute. reflexivity. Qed.
